@@ -2,6 +2,7 @@ package main
 
 import (
 	"bytes"
+	"errors"
 	"regexp"
 	"time"
 
@@ -22,9 +23,22 @@ type interpObs struct {
 }
 
 // interp: Parse (+ parts) then Execute, with the given options.
+// failingWriter: an output writer on which every write fails (a full disk, a closed pipe)
+type failingWriter struct{}
+
+func (failingWriter) Write(p []byte) (int, error) { return 0, errNoSpace }
+
+var errNoSpace = errors.New("no space left on device")
+
+// failOut: the next interpret call uses a failing output writer (set by suiteInterp for opts containing 'F')
+var failOut bool
+
 func interpret(src []byte, name string, disasm, trace, stats bool) (o interpObs) {
 	var out, log bytes.Buffer
 	opts := []bcl.Option{bcl.OptOutput(&out), bcl.OptLogger(&log), bcl.OptDisasm(disasm), bcl.OptTrace(trace), bcl.OptStats(stats)}
+	if failOut {
+		opts[0] = bcl.OptOutput(failingWriter{})
+	}
 	var p *bcl.Prog
 	var err error
 	var res []bcl.Block
@@ -75,14 +89,14 @@ func execSeq(src []byte, name string, seq []string) []M {
 	}
 	for _, opts := range seq {
 		has := func(ch byte) bool { return bytes.IndexByte([]byte(opts), ch) >= 0 }
-		mark := out.Len()
+		mark, lmark := out.Len(), log.Len()
 		var res []bcl.Block
 		var b bcl.Binding
 		var xerr error
 		class, pm := guard(30*time.Second, func() {
 			res, b, xerr = bcl.Execute(p, bcl.OptOutput(&out), bcl.OptLogger(&log), bcl.OptTrace(has('t')), bcl.OptStats(has('s')))
 		})
-		st := M{"opts": opts, "class": class, "out": hx(out.Bytes()[mark:]), "blocks": showBlocks(res), "binding": showBinding(b)}
+		st := M{"opts": opts, "class": class, "out": hx(out.Bytes()[mark:]), "log": hx(log.Bytes()[lmark:]), "blocks": showBlocks(res), "binding": showBinding(b)}
 		if class != "ok" {
 			st["err"] = pm
 		} else if xerr != nil {
@@ -93,12 +107,46 @@ func execSeq(src []byte, name string, seq []string) []M {
 	return steps
 }
 
+// stickyOptions: a call that sets every option, then a call that sets only its own writers: nothing of the first call
+// may show in the second, and the first call's writers must stay untouched.
+func stickyOptions(src []byte, name string) M {
+	var o1, l1, o2, l2 bytes.Buffer
+	var p1, p2 *bcl.Prog
+	var e1, e2 error
+	class, pm := guard(30*time.Second, func() {
+		p1, e1 = bcl.Parse(append([]byte(nil), src...), name, bcl.OptOutput(&o1), bcl.OptLogger(&l1), bcl.OptDisasm(true), bcl.OptStats(true), bcl.OptTrace(true))
+		if e1 == nil {
+			_, _, e1 = bcl.Execute(p1, bcl.OptOutput(&o1), bcl.OptLogger(&l1), bcl.OptStats(true), bcl.OptTrace(true))
+		}
+	})
+	if class != "ok" {
+		return M{"class": class, "err": pm}
+	}
+	n1, m1 := o1.Len(), l1.Len()
+	class, pm = guard(30*time.Second, func() {
+		p2, e2 = bcl.Parse(append([]byte(nil), src...), name, bcl.OptOutput(&o2), bcl.OptLogger(&l2))
+		if e2 == nil {
+			_, _, e2 = bcl.Execute(p2, bcl.OptOutput(&o2), bcl.OptLogger(&l2))
+		}
+	})
+	if class != "ok" {
+		return M{"class": class, "err": pm}
+	}
+	return M{"class": "ok", "first_touched": o1.Len() != n1 || l1.Len() != m1, "second_out": hx(o2.Bytes()), "second_log": hx(l2.Bytes()),
+		"second_err": errStr(e2)}
+}
+
 func suiteInterp(c M) M {
 	src := unhex(str(c["src_hex"])) // a fresh buffer per case: interpret overwrites it afterwards
 	opts := str(c["opts"])
 	has := func(ch byte) bool { return bytes.IndexByte([]byte(opts), ch) >= 0 }
+	failOut = has('F')
 	o := interpret(src, str(c["name"]), has('d'), has('t'), has('s'))
+	failOut = false
 	r := M{"obs": o}
+	if c["sticky"] == true {
+		r["sticky"] = stickyOptions(src, str(c["name"]))
+	}
 	if seq, ok := c["seq"].([]any); ok {
 		var ss []string
 		for _, x := range seq {
